@@ -223,8 +223,8 @@ namespace BitSerializer::Csv::Detail
 
 	//------------------------------------------------------------------------------
 
-	CCsvStreamReader::CCsvStreamReader(std::istream& inputStream, bool withHeader, char separator)
-		: mEncodedStreamReader(inputStream)
+	CCsvStreamReader::CCsvStreamReader(std::istream& inputStream, bool withHeader, char separator, Convert::Utf::UtfEncodingErrorPolicy encodingErrorPolicy)
+		: mEncodedStreamReader(inputStream, encodingErrorPolicy)
 		, mWithHeader(withHeader)
 		, mSeparator(separator)
 	{
